@@ -80,6 +80,23 @@ def cases(draw):
                 steps.append({"op": "probe", "sid": "bla/" + m.render(t, f)})
             else:
                 steps.append({"op": "probe", "sid": m.render(tt, ff)})
+    if draw(st.integers(0, 3)) == 0:
+        # a leaf file and, next to it, a deeper leaf whose extra (free) level carries the file's last value as its name
+        # ('.../w/abc' and '.../w/abc/vdb'): the leaf still has no children
+        pairs = [(y, x) for y in ptypes for x in ptypes
+                 if m.is_leaf_type(y) and m.is_leaf_type(x) and len(m.keys(x)) == len(m.keys(y)) + 1
+                 and m.keys(x)[:-2] == m.keys(y)[:-1] and m.keys(x)[-1] == m.keys(y)[-1] and m.specs[(x, m.keys(x)[-2])].free]
+        if pairs:
+            y, x = draw(st.sampled_from(pairs))
+            ky, kx = m.keys(y), m.keys(x)
+            fy = {k: draw(gens.entity_value(m, y, k)) for k in ky}
+            fx = {k: fy[k] for k in ky[:-1]}
+            fx[kx[-2]] = fy[ky[-1]]
+            fx[kx[-1]] = draw(gens.entity_value(m, x, kx[-1]))
+            if m.accepts(x, [fx[k] for k in kx]) and m.type_first(m.render(y, fy))[0] == y:
+                ents = list(ents) + [(y, fy), (x, fx)]
+                steps = [{"op": "create", "i": len(ents) - 2}, {"op": "create", "i": len(ents) - 1}] + steps + \
+                        [{"op": "probe", "sid": m.render(y, fy)}]
     return {"entities": [[t, f] for t, f in ents], "initial": initial, "steps": steps}
 
 
